@@ -11,6 +11,7 @@ pub mod c11;
 pub mod c16;
 pub mod c17;
 pub mod c18;
+pub mod c19;
 pub mod faults;
 
 use std::fs;
@@ -33,6 +34,7 @@ pub fn dispatch(ctx: &Ctx) -> bool {
         "C16" => c16::run(ctx),
         "C17" => c17::run(ctx),
         "C18" => c18::run(ctx),
+        "C19" => c19::run(ctx),
         _ => return false,
     }
     true
@@ -43,6 +45,7 @@ pub fn custom_for(property: &str) -> Option<CustomFn<'static>> {
         "C03" => Some(&c03::custom),
         "C10" => Some(&c10::custom),
         "C18" => Some(&c18::custom),
+        "C19" => Some(&c19::custom),
         _ => None,
     }
 }
